@@ -321,11 +321,19 @@ def run(ck):
     f = ck.facts
     # ---- R1: the table
     c = f.consts.get('crc::CRC_TAB')
-    if not c or not isinstance(c.get('alloc'), dict) or not c['alloc'].get('ptrs'):
+    if not c or not isinstance(c.get('alloc'), dict):
         raise Tooling('anchor lost: constant crc::CRC_TAB (value not readable)')
-    fat = bytes.fromhex(c['alloc']['bytes'])
-    n = int.from_bytes(fat[8:16], 'little')
-    data = bytes.fromhex(c['alloc']['ptrs'][0]['alloc']['bytes'])
+    # the table may be declared `&[u32]` (fat pointer to the data), `&[u32; 256]` (thin pointer) or `[u32; 256]` (the data itself)
+    tyk = c.get('ty', {})
+    if c['alloc'].get('ptrs'):
+        data = bytes.fromhex(c['alloc']['ptrs'][0]['alloc']['bytes'])
+        fat = bytes.fromhex(c['alloc']['bytes'])
+        n = int.from_bytes(fat[8:16], 'little') if len(fat) >= 16 else len(data) // 4
+    elif tyk.get('k') == 'array':
+        data = bytes.fromhex(c['alloc']['bytes'])
+        n = tyk.get('len')
+    else:
+        raise Tooling('anchor lost: constant crc::CRC_TAB (value not readable)')
     tab = [int.from_bytes(data[4 * i:4 * i + 4], 'little') for i in range(len(data) // 4)]
     spec = spec_table()
     ck.rule('C12.R1 CRC_TAB entries compared with the polynomial 0x04C11DB7 (MSB first)', len(tab), 256)
